@@ -34,6 +34,18 @@ def programs(ctx):
             "    let p = P { t: Tag(core::marker::PhantomData, L { v: 1, n: 0 }), l: L { v: 2, n: 0 } }; let q = -&p; let r = -p; if q.l != r.l || q.t.1 != r.t.1 { out.push(\"-&P differs from -P\".to_string()); }\n    out }\n"
             "pub fn replay(_h: &str, _b: &[u8]) -> (bool, String) { (true, String::new()) }\n")
     out.append(E.Prog("p_self_in_bounds", text, [], {"describe": "Self in bound(..) and in a field type: derive_ex(Add, AddAssign, Neg, bound(Self: Tr, ..)) struct S<T>(L, T); derive_ex(Neg) struct P { t: Tag<Self>, l: L }"}, ncheck=True))
+    # `Self` in an inline parameter bound and in the item's own where-clause (all eight forms exist and agree with the owned form)
+    text = ("pub trait TagOf<W> {}\nimpl TagOf<Q<L>> for L {}\nimpl TagOf<R<L, 2>> for L {}\n"
+            "#[derive_ex::derive_ex(Sub, SubAssign, Neg, Not)]\n#[derive(Clone, Copy, Debug, PartialEq)]\npub struct Q<T: TagOf<Self>>(pub T, pub T);\n"
+            "#[derive_ex::derive_ex(Shl, ShlAssign, Neg)]\n#[derive(Clone, Copy, Debug, PartialEq)]\npub struct R<T: Copy, const N: usize> where T: TagOf<Self>, [u8; N]: Sized { pub a: T, pub b: T }\n\n"
+            "pub fn ncheck() -> Vec<String> { let mut out = Vec::new(); let l = |v: u8| L { v, n: 0 }; let a = Q(l(3), l(5)); let b = Q(l(7), l(9));\n"
+            "    if &a - &b != a - b || &a - b != a - b || a - &b != a - b || -&a != -a || !&a != !a { out.push(\"Q: reference forms differ from the owned form\".to_string()); }\n"
+            "    let mut c = a; c -= b; let mut d = a; d -= &b; if c != a - b || d != a - b { out.push(\"Q: assign forms differ from the owned binary form\".to_string()); }\n"
+            "    let a = R::<L, 2> { a: l(3), b: l(5) }; let b = R::<L, 2> { a: l(1), b: l(2) };\n"
+            "    if &a << &b != a << b || &a << b != a << b || a << &b != a << b || -&a != -a { out.push(\"R: reference forms differ from the owned form\".to_string()); }\n"
+            "    let mut c = a; c <<= b; let mut d = a; d <<= &b; if c != a << b || d != a << b { out.push(\"R: assign forms differ from the owned binary form\".to_string()); }\n    out }\n"
+            "pub fn replay(_h: &str, _b: &[u8]) -> (bool, String) { (true, String::new()) }\n")
+    out.append(E.Prog("p_self_in_param_bounds", text, [], {"describe": "Self in an inline parameter bound / own where-clause: derive_ex(Sub, SubAssign, Neg, Not) struct Q<T: TagOf<Self>>(T, T); derive_ex(Shl, ShlAssign, Neg) struct R<T: Copy, const N: usize> where T: TagOf<Self> { a: T, b: T }"}, ncheck=True))
     return out
 
 
